@@ -27,6 +27,7 @@ import common as C
 
 ALPHA = "abAB1_"
 CORPUS = [
+    "to_dict", "from_dict", "parse", "dump", "load", "to_json", "from_json", "is_set", "to_pydict", "from_pydict",
     "address_line_1", "address_line_2", "ipv4_address", "ipv6_address", "x_y_z", "HTTPStatus", "http_status",
     "HTTPStatusCode", "userID", "user_id", "UserId", "URL", "url", "myURLParser", "my_url_parser", "a", "A", "_",
     "__", "_a", "a_", "_1", "__init__", "__class__", "self", "cls", "id", "type", "class", "None", "none", "NONE",
@@ -315,6 +316,11 @@ def show(v):
 
 
 def run(chk, drv):
+    plugin_generated_fields(chk)
+    _run(chk, drv)
+
+
+def _run(chk, drv):
     quick = chk.tier == "quick"
     names, groups = all_names(chk)
     for k, v in groups.items():
@@ -443,6 +449,75 @@ class Collector:
                 self.chk.fail(fl["kind"], fl["input"], fl["detail"])
 
 
+# (a field named `betterproto` makes the generated module unimportable — it shadows the module in the class body: D47, a C03
+#  finding about the generated text, not about the name mapping; names of Python TYPES used in later annotations are D33)
+PLUGIN_NAMES = ["datetime", "timedelta", "timezone", "date", "time", "list", "dict",
+                "optional", "message", "field", "value", "self", "cls", "class", "import", "from", "lambda", "match", "case", "none", "true",
+                "false", "id", "type", "str", "bytes", "bool", "float", "len", "print", "name", "values", "keys", "items",
+                "ipv4_address", "user_id", "sha256sum", "http_status", "md5sum", "foo_bar", "lat", "lng",
+                "b64", "utf8", "created_at", "updated_at", "ttl", "duration", "timestamp"]
+
+
+def plugin_generated_fields(chk):
+    """the same question on classes the PLUGIN generates (its field naming goes through FieldCompiler.py_name, not only
+    through pythonize_field_name), in a package that also uses Timestamp / Duration / wrappers / repeated / maps / optional
+    (so that the generated module imports datetime, timedelta, typing names, builtins)"""
+    import pluginrun
+    names = [n for n in PLUGIN_NAMES if is_proto_ident(n)]
+    for variant in ("with-wkt", "plain"):
+        lines = ['syntax = "proto3";', "package namesp;"]
+        if variant == "with-wkt":
+            lines += ['import "google/protobuf/timestamp.proto";', 'import "google/protobuf/duration.proto";',
+                      'import "google/protobuf/wrappers.proto";']
+        lines.append("message ApiNames {")
+        for i, n in enumerate(API_NAMES):
+            lines.append("  int32 %s = %d;" % (n, i + 1))
+        lines.append("}")
+        lines.append("message Names {")
+        for i, n in enumerate(names):
+            lines.append("  int32 %s = %d;" % (n, i + 1))
+        if variant == "with-wkt":
+            lines += ["}", "message Other {", "  google.protobuf.Timestamp at = 1;", "  google.protobuf.Duration took = 2;",
+                      "  google.protobuf.Int32Value maybe = 3;", "  repeated int32 many = 4;", "  map<string, int32> table = 5;",
+                      "  optional int32 opt = 6;"]
+        lines.append("}")
+        g = pluginrun.generate({"names.proto": "\n".join(lines) + "\n"})
+        try:
+            if not g.ok:
+                chk.fail("plugin-failed", {"variant": variant}, g.log[-800:])
+                continue
+            try:
+                mod = g.import_module("namesp")
+                M = mod.Names
+            except Exception as e:  # noqa
+                chk.fail("generated-module-not-importable", {"variant": variant}, repr(e)[:400])
+                continue
+            for M, plist, api in ((mod.Names, names, False), (mod.ApiNames, API_NAMES, True)):
+              by_num = {betterproto.FieldMetadata.get(fld).number: fld.name for fld in dataclasses.fields(M)}
+              for i, p in enumerate(plist):
+                f = by_num.get(i + 1)
+                inp = {"proto": p, "field": f, "variant": variant, "generated_by": "plugin", "alpha2": field_words_alpha2(f or ""),
+                       "class_has_api_named_field": api}
+                chk.case("plugin %s %s" % (variant, p), True, {"proto": p, "field": f})
+                chk.count("plugin_generated_field")
+                if f is None or not valid_name(f):
+                    chk.fail("field-name-invalid", inp, repr(f))
+                    continue
+                m = call(lambda: M(**{f: 7}))
+                if isinstance(m, Exception):
+                    chk.fail("message-class-not-buildable", inp, repr(m))
+                    continue
+                for cname, cas in (("camel", betterproto.Casing.CAMEL), ("snake", betterproto.Casing.SNAKE)):
+                    back = call(lambda: M().from_dict(m.to_dict(casing=cas)))
+                    if isinstance(back, Exception) or getattr(back, f) != 7:
+                        chk.fail("key-not-invertible:" + cname, inp, "to_dict=%r -> %r" % (call(lambda: m.to_dict(casing=cas)), back))
+                back = call(lambda: M().from_dict({p: 7}))
+                if isinstance(back, Exception) or getattr(back, f) != 7:
+                    chk.fail("orig-name-not-mapped", inp, "from_dict({%r: 7}) gives %r" % (p, back))
+        finally:
+            g.cleanup()
+
+
 def multi_field_messages(chk, fields):
     """several generated fields in one message: every value must survive to_dict -> from_dict"""
     rng = chk.rng
@@ -462,9 +537,20 @@ def multi_field_messages(chk, fields):
 
 # ------------------------------------------------------------------ classification / replay
 
+API_NAMES = ["to_dict", "from_dict", "parse", "dump", "load", "to_json", "from_json", "is_set", "to_pydict", "from_pydict"]
+
+
+def shadows_api(name):
+    """the field (a class attribute of the dataclass) hides an attribute of betterproto.Message the runtime itself calls"""
+    return isinstance(name, str) and hasattr(betterproto.Message, name)
+
+
 def classify(failure, known):
     kind, inp = failure["kind"], failure["input"] or {}
     ids = {e["id"] for e in known}
+    if "D48" in ids and kind in ("key-not-invertible:camel", "key-not-invertible:snake", "orig-name-not-mapped", "message-class-not-buildable") \
+            and (shadows_api(inp.get("field")) or inp.get("class_has_api_named_field")):
+        return "D48"
     if "D15" in ids and kind == "key-not-invertible:camel" and inp.get("alpha2") is False \
             and not field_words_alpha2(inp.get("field", "")):
         return "D15"
